@@ -12,7 +12,6 @@ by hand through `send/throw`, no event loop).
   * correspondence: results of both runs and the event trace are compared with the Lean model
     (drivers/C16.lean over Catch/Model.lean and Py/Generators.lean).
 """
-import functools
 import warnings
 
 from harness import core
@@ -515,10 +514,7 @@ def _drv_depth1(run, obj, op, kind):
             aw = obj.athrow(run.obj(op[1], op[2]))
         else:
             aw = obj.aclose()
-        r = _outcome(run, aw.send, None, closing=(op[0] == "c"), agen=True)
-        if r[0] == "y" and op[0] != "c" and False:
-            pass
-        return r
+        return _outcome(run, aw.send, None, closing=(op[0] == "c"), agen=True)
     if op[0] == "s":
         return _outcome(run, obj.send, pyval(op[1]))
     if op[0] == "t":
@@ -773,7 +769,6 @@ def cfg_default(**kw):
 
 
 ENV0 = {"probes": [], "logbits": "0" * NC, "logexc": [11, 400]}
-ROWX = [["x"]] * NC
 
 
 def row(send, **throws):
